@@ -745,7 +745,16 @@ class Evaluator:
         # the first iteration peeled)
         nested = self._nested_for(s, fi)
         if nested is not None:
-            return self._for(nested, st, fi, depth)
+            states = [st]
+            for asg in getattr(nested, '_prelude', []):
+                nxt = []
+                for s0 in states:
+                    nxt.extend(e0.state for e0 in self._stmt(asg, s0, fi, depth) if e0.kind == 'fall')
+                states = nxt
+            out_ = []
+            for s0 in states:
+                out_.extend(self._for(nested, s0, fi, depth))
+            return out_
         sy = synth_count_loop(self.P, fi, s)
         if sy is not None:
             init, loop = sy
@@ -794,7 +803,8 @@ class Evaluator:
             post = self._havoc(s1, modified, s.body, tag + 'post')
             # a list filled by exactly one append per iteration is the comprehension over the same iterable:
             #   out = []; for v in IT: out.append(E(v))   ==   out = [E(v) for v in IT]
-            if not after and not res_has_exit(res, s) and body_states and var[0] == 's':
+            flat_tuple = var[0] == 'tuple' and var[1] and all(x[0] == 's' for x in var[1])
+            if not after and not res_has_exit(res, s) and body_states and (var[0] == 's' or flat_tuple):
                 for name in sorted(modified):
                     start = entry_env.get(name)
                     hd = head_env.get(name)
@@ -808,8 +818,14 @@ class Evaluator:
                         else:
                             elts.add(None)
                     if len(elts) == 1 and None not in elts:
-                        bv = ('bv', var[1].split('@')[0])
-                        comp = ('comp', 'list', substitute(next(iter(elts)), {var: bv}), ((bv, it, ()),))
+                        if flat_tuple:
+                            # for a, b in IT: out.append(E(a, b))   ==   [E(r[0], r[1]) for r in IT]
+                            bv = ('bv', '_'.join(x[1].split('@')[0] for x in var[1]))
+                            sub_ = {x: ('sub', bv, C(i_)) for i_, x in enumerate(var[1])}
+                        else:
+                            bv = ('bv', var[1].split('@')[0])
+                            sub_ = {var: bv}
+                        comp = ('comp', 'list', substitute(next(iter(elts)), sub_), ((bv, it, ()),))
                         post.env[name] = comp if not start[1] else ('bin', '+', start, comp)
             post.loops.append(LoopSummary(s, 'for', var, it, body_states, head_env, entry_env))
             post.trace.append('%d:for done' % ln)
@@ -856,6 +872,17 @@ class Evaluator:
                          for k in range(n)]
         if iters is None:
             return None
+        prelude = []
+        if d == 'numpy.ndindex':
+            # the extents are evaluated once, before the first iteration (the loop body may store into the array
+            # whose shape they are taken from)
+            for k, itc in enumerate(iters):
+                nm = '__nd%d_%d' % (s.lineno, k)
+                asg = ast.Assign(targets=[ast.Name(id=nm, ctx=ast.Store())], value=itc.args[0], type_comment=None)
+                ast.copy_location(asg, s)
+                ast.fix_missing_locations(asg)
+                prelude.append(asg)
+                itc.args = [ast.Name(id=nm, ctx=ast.Load())]
 
         def own_break(nodes):
             for x in nodes:
@@ -883,6 +910,7 @@ class Evaluator:
             cur._synthetic_level = k
             k += 1
             cur = cur.body[0] if len(cur.body) == 1 and isinstance(cur.body[0], ast.For) and getattr(cur.body[0], 'target', None) in s.target.elts else None
+        node._prelude = prelude
         cache[id(s)] = node
         return node
 
@@ -1265,7 +1293,7 @@ class Evaluator:
                 return [(NONE, st, 'ok')]          # np.newaxis is None
             if d is not None:
                 return [(('ref', d), st, 'ok')]
-            return [((('attr', t, e.attr)), s2, k) if k == 'ok' else (t, s2, k)
+            return [(_mk_attr(t, e.attr), s2, k) if k == 'ok' else (t, s2, k)
                     for t, s2, k in self._ev(e.value, st, mod, fi, depth)]
         if isinstance(e, ast.BinOp):
             outs = []
@@ -1449,7 +1477,64 @@ class Evaluator:
             out.append((mk(ts), s, 'ok'))
         return out
 
+    def _comp_static(self, e, st, mod, fi, depth):
+        """[E(v) for v in <static items> if <decidable>]  ->  the literal list (None when not static)."""
+        if not isinstance(e, (ast.ListComp, ast.GeneratorExp)):
+            return None
+        out = []
+        budget = [4 * self.unroll_limit]
+
+        def rec(gi, s):
+            g = e.generators[gi]
+            if g.is_async:
+                return False
+            outs = self._ev(g.iter, s, mod, fi, depth + self.max_depth)
+            if len(outs) != 1 or outs[0][2] != 'ok':
+                return False
+            items = _static_items(outs[0][0])
+            if items is None or len(items) > self.unroll_limit:
+                return False
+            for item in items:
+                budget[0] -= 1
+                if budget[0] < 0:
+                    return False
+                s2 = self._assign(g.target, item, outs[0][1].copy(), mod, fi, depth, e.lineno)
+                keep = True
+                for c in g.ifs:
+                    co = self._ev(c, s2, mod, fi, depth + self.max_depth)
+                    if len(co) != 1 or co[0][2] != 'ok':
+                        return False
+                    tr = self.truth(co[0][0], s2)
+                    if tr is None:
+                        return False
+                    if not tr:
+                        keep = False
+                        break
+                if not keep:
+                    continue
+                if gi + 1 < len(e.generators):
+                    if not rec(gi + 1, s2):
+                        return False
+                else:
+                    el = self._ev(e.elt, s2, mod, fi, depth + self.max_depth)
+                    if len(el) != 1 or el[0][2] != 'ok':
+                        return False
+                    out.append(el[0][0])
+            return True
+        self._nofork = getattr(self, '_nofork', 0) + 1
+        try:
+            n_eff = len(st.effects)
+            ok = rec(0, st.copy())
+        finally:
+            self._nofork -= 1
+        if not ok:
+            return None
+        return [(('list', tuple(out)), st, 'ok')]
+
     def _comp(self, e, st, mod, fi, depth):
+        static = self._comp_static(e, st, mod, fi, depth)
+        if static is not None:
+            return static
         s = st.copy()
         gens = []
         for g in e.generators:
@@ -1566,6 +1651,43 @@ class Evaluator:
                     return [(hit[0][1], st, 'ok')]
             if name == 'copy' and bt[0] in ('dict', 'list') and not pos:
                 return [(bt, st, 'ok')]
+            if name == 'setdefault' and len(pos) == 2 and not kws and is_c(pos[0]) and _lvalue_key(e.func.value) \
+                    and not getattr(self, '_nofork', 0):
+                # d.setdefault(k, v):  d[k] if k in d, else d[k] = v and v  (one path per case, like the if-form)
+                key = _lvalue_key(e.func.value)
+                cond = ('cmp', 'in', pos[0], bt)
+                tr = self.truth(cond, st)
+                outs_ = []
+                for case in ((True, False) if tr is None else (tr,)):
+                    s_ = st.copy() if tr is None else st
+                    if tr is None:
+                        self.assume(cond, case, s_, ln)
+                        s_.trace.append('%d:setdefault %s present=%s' % (ln, show(pos[0]), case))
+                    if case:
+                        outs_.append((_mk_sub(bt, pos[0]), s_, 'ok'))
+                    else:
+                        if bt[0] == 'dict':
+                            new = ('dict', tuple(bt[1]) + ((pos[0], pos[1]),))
+                        else:
+                            new = ('setitem', bt, pos[0], pos[1])
+                        s_.effects.append(('setitem', bt, pos[0], pos[1], ln, key))
+                        s_.env[key] = new
+                        outs_.append((pos[1], s_, 'ok'))
+                return outs_
+            if is_c(bt) and isinstance(bt[1], str) and not kws and all(is_c(x) for x in pos) \
+                    and name in ('split', 'rsplit', 'strip', 'lstrip', 'rstrip', 'lower', 'upper', 'startswith',
+                                 'endswith', 'count', 'find', 'replace', 'partition', 'rpartition'):
+                # a method of a literal string (a key fixed by the evaluation context)
+                try:
+                    v = getattr(bt[1], name)(*[x[1] for x in pos])
+                except Exception:
+                    v = None
+                if isinstance(v, (str, bool, int)):
+                    return [(C(v), st, 'ok')]
+                if isinstance(v, list):
+                    return [(('list', tuple(C(x) for x in v)), st, 'ok')]
+                if isinstance(v, tuple):
+                    return [(('tuple', tuple(C(x) for x in v)), st, 'ok')]
             msig = METH_SIGS.get(name)
             if msig is not None and pos and len(pos) <= len(msig) and not ({k for k, _ in kws} & set(msig[:len(pos)])) \
                     and bt[0] not in ('dict', 'list', 'tuple', 'set') and not any(x[0] == 'starred' for x in pos):
@@ -1608,6 +1730,14 @@ class Evaluator:
                 return [((callee.dotted.split('.')[-1], pos[0][1]), st, 'ok')]
             if callee.dotted == 'builtins.len' and len(pos) == 1 and not kws and pos[0][0] in ('list', 'tuple', 'dict'):
                 return [(C(len(pos[0][1])), st, 'ok')]
+            if callee.dotted == 'builtins.len' and len(pos) == 1 and not kws and _closed_vec(pos[0]) is not None:
+                return [(C(len(_closed_vec(pos[0]))), st, 'ok')]
+            if callee.dotted == 'builtins.isinstance' and len(pos) == 2 and not kws \
+                    and pos[0][0] in ('list', 'tuple', 'dict'):
+                # isinstance of a literal container
+                tys = pos[1][1] if pos[1][0] == 'tuple' else (pos[1],)
+                if tys and all(x[0] == 'ref' and x[1].startswith('builtins.') for x in tys):
+                    return [(C(('builtins.' + pos[0][0]) in {x[1] for x in tys}), st, 'ok')]
             if callee.dotted == 'builtins.isinstance' and len(pos) == 2 and not kws and is_c(pos[0]):
                 # isinstance of a literal (a parameter fixed by the evaluation context) against builtin types
                 BT = {'builtins.int': int, 'builtins.float': float, 'builtins.str': str, 'builtins.bool': bool,
@@ -1647,6 +1777,12 @@ class Evaluator:
                 kws = [(k, v) for k, v in kws if not (k in dfl and v == C(dfl[k]))]    # explicit defaults dropped
             # one spelling for "indices where a 1-D condition holds":
             #   np.nonzero(c) == np.where(c) ;  np.flatnonzero(c) == np.where(c)[0]
+            if callee.dotted == 'numpy.transpose' and len(pos) == 1 and not kws:
+                # np.transpose(x) == np.asarray(x).T
+                x = pos[0]
+                if x[0] in ('comp', 'list', 'tuple'):
+                    x = ('call', 'numpy.array', (x,), ())
+                return [(('attr', x, 'T'), st, 'ok')]
             if callee.dotted == 'numpy.nonzero' and len(pos) == 1 and not kws:
                 return [(('call', 'numpy.where', tuple(pos), ()), st, 'ok')]
             if callee.dotted == 'numpy.flatnonzero' and len(pos) == 1 and not kws:
@@ -1671,12 +1807,25 @@ class Evaluator:
             closure = None
             if f.parent is not None and fi is not None and (f.parent is fi):
                 closure = {k: v for k, v in saved_env.items() if not k.startswith('closure:')}
+            elif f.parent is not None:
+                # a nested function handed to a helper and called there: its free variables are those of the frame
+                # that defined it, which is suspended further up the inlining chain
+                for fr_fi, fr_env in reversed(getattr(self, '_frames', [])):
+                    if fr_fi is f.parent:
+                        closure = {k: v for k, v in fr_env.items() if not k.startswith('closure:')}
+                        break
             inherit = None
             same_self = bool(getattr(f, 'is_method', False)) and isinstance(e.func, ast.Attribute) \
                 and isinstance(e.func.value, ast.Name) and e.func.value.id == 'self'
             if same_self:
                 inherit = {k_: v_ for k_, v_ in saved_env.items() if k_.startswith('self.')}
-            exits = self.run(f, args=bound, state=sub, depth=depth + 1, closure=closure, inherit=inherit)
+            if not hasattr(self, '_frames'):
+                self._frames = []
+            self._frames.append((fi, saved_env))
+            try:
+                exits = self.run(f, args=bound, state=sub, depth=depth + 1, closure=closure, inherit=inherit)
+            finally:
+                self._frames.pop()
             for x in exits:
                 s2 = x.state
                 callee_env = s2.env
@@ -2009,7 +2158,66 @@ def _inplace_update_of(newv, argt, loops, depth=0):
     return False
 
 
+def _mk_attr(base, name):
+    # the shape of a fresh allocation with a literal shape tuple is that tuple; element stores keep it
+    if name == 'shape':
+        b = base
+        while b[0] == 'setitem':
+            b = b[1]
+        if b[0] == 'call' and b[1] in ('numpy.zeros', 'numpy.empty', 'numpy.ones', 'numpy.full') and b[2] \
+                and b[2][0][0] == 'tuple' and not any(x[0] == 'starred' for x in b[2][0][1]):
+            return b[2][0]
+    return ('attr', base, name)
+
+
+_CLOSED_CACHE = {}
+
+
+def _closed_vec(t):
+    """The value (python list of scalars) of a *closed* 1-D array term: built from literal lists of constants by the
+    numpy fragment that orderval interprets, with no symbol in it.  None otherwise.  (Rules enumerate small inputs as
+    literal lists; this lets loops over arrays derived from them unroll.)"""
+    if t[0] in ('s', 'c', 'bv', 'ref', 'tuple', 'list', 'dict', 'attr'):
+        return None
+    if t[0] not in ('call', 'meth', 'sub', 'setitem', 'bin', 'cmp', 'un'):
+        return None
+    if t in _CLOSED_CACHE:
+        return _CLOSED_CACHE[t]
+    res = None
+    lit = False
+    ok = True
+    for x in subterms(t):
+        if x[0] in ('s', 'bv', 'callv', 'fault', 'closure', 'lambda'):
+            ok = False
+            break
+        if x[0] == 'list' and all(is_c(y) for y in x[1]):
+            lit = True
+    if ok and lit:
+        from .orderval import OrderEval
+        try:
+            v = OrderEval({}).ev(t)
+            if isinstance(v, list) and all(isinstance(y, (bool, int, float)) for y in v):
+                res = list(v)
+        except Exception:
+            res = None
+    if len(_CLOSED_CACHE) > 20000:
+        _CLOSED_CACHE.clear()
+    _CLOSED_CACHE[t] = res
+    return res
+
+
 def _mk_sub(base, idx):
+    if base[0] in ('tuple', 'list') and idx[0] == 'slice' and not any(x[0] == 'starred' for x in base[1]) \
+            and all(x == NONE or (is_c(x) and type(x[1]) is int) for x in idx[1:4]):
+        sl = slice(*[None if x == NONE else x[1] for x in idx[1:4]])
+        try:
+            return (base[0], tuple(base[1][sl]))
+        except ValueError:
+            pass
+    if is_c(idx) and type(idx[1]) is int and base[0] in ('call', 'meth', 'sub', 'setitem', 'bin', 'cmp', 'un'):
+        v = _closed_vec(base)
+        if v is not None and -len(v) <= idx[1] < len(v):
+            return C(v[idx[1]])
     if base[0] in ('tuple', 'list') and is_c(idx) and isinstance(idx[1], int) \
             and -len(base[1]) <= idx[1] < len(base[1]):
         return base[1][idx[1]]
@@ -2049,6 +2257,9 @@ def _static_items(it):
         cols = [_static_items(a) for a in it[2]]
         if all(c is not None for c in cols):
             return [('tuple', tuple(x)) for x in zip(*cols)]
+    v = _closed_vec(it)
+    if v is not None and len(v) <= 8:
+        return [C(x) for x in v]
     return None
 
 
